@@ -390,16 +390,34 @@ theorem tr_rawSlicesH (n : Nat) (d : Desc) (p : HPacket) : Tr n (rawSlicesH d p)
   · exact tr_pure trivial
   · exact tr_true (tr_getsVendorH n _ _ _)
 
+theorem tr_concatLoopH (n : Nat) (raws : List Slice) :
+    ∀ (value : Slice), n ≤ value.buf → Tr n (concatLoopH raws value) (fun s => n ≤ s.buf) := by
+  induction raws with
+  | nil => intro value hv; exact tr_pure hv
+  | cons a rest ih =>
+    intro value hv
+    unfold concatLoopH
+    refine tr_bind (tr_bytesH n a) (fun i _ => ?_)
+    refine tr_bind (tr_readS n i) (fun iv _ => ?_)
+    refine tr_bind (tr_appendS n value iv hv) (fun value' hv' => ?_)
+    exact ih value' hv'
+
 theorem tr_hLookupH (n : Nat) (H : Hash) (d : Desc) (p : HPacket) (auth : Bytes) :
     Tr n (hLookupH H d p auth) (Fr n) := by
   unfold hLookupH
   refine tr_bind (tr_rawSlicesH n d p) (fun raws _ => ?_)
   split
-  · exact tr_pure (by intro x hx; simp at hx)
-  · refine tr_bind (tr_decodeValueH n H d _ p.secret auth) (fun r hr => ?_)
-    split
-    · exact tr_pure (by intro x hx; simp at hx; exact hr x (by simpa using hx))
+  · split
     · exact tr_pure (by intro x hx; simp at hx)
+    · refine tr_bind (tr_copyNew n []) (fun value hv => ?_)
+      refine tr_bind (tr_concatLoopH n raws value hv) (fun value' hv' => ?_)
+      exact tr_pure (by intro x hx; simp at hx; subst hx; exact hv')
+  · split
+    · exact tr_pure (by intro x hx; simp at hx)
+    · refine tr_bind (tr_decodeValueH n H d _ p.secret auth) (fun r hr => ?_)
+      split
+      · exact tr_pure (by intro x hx; simp at hx; exact hr x (by simpa using hx))
+      · exact tr_pure (by intro x hx; simp at hx)
 
 theorem tr_hGetsGoH (n : Nat) (H : Hash) (d : Desc) (secret : Slice) (auth : Bytes) (raws : List Slice) :
     Tr n (hGetsGoH H d secret auth raws) (Fr n) := by
@@ -988,7 +1006,7 @@ theorem hLookupH_view (H : Hash) (d : Desc) (henc : d.encrypt = 0) (hv : d.vendo
     (hLookupH H d p auth h).1.view (hLookupH H d p auth h).2 =
       hLookup H d (p.view h).attrs (h.read p.secret) auth := by
   unfold hLookupH hLookup rawSlicesH rawValues
-  rw [if_neg hc, if_pos hv, if_pos hv, bind_apply, pure_apply]
+  rw [if_neg hc, if_pos hv, if_pos hv, bind_apply, pure_apply, if_neg hc]
   have hh := rawHead_view d p h
   simp only []
   cases hr : ((p.attrs.filter (fun ts => ts.1 = d.typ)).map (·.2)).head? with
